@@ -229,6 +229,30 @@ func VerifC19_ConfiguredPathTypes() {
 	} else {
 		verif_Assert(err != nil && rw == nil, "a resource type the server is not configured for is refused")
 	}
+	// options belong to the call they were given to: another endpoint of the same
+	// process, built without options, behaves as documented for the defaults
+	for _, c := range []struct {
+		path string
+		ok   bool
+	}{{"/multihash/" + c19mh().B58String(), true}, {"/cid/bafkqaaa", true}, {"/mh/" + c19mh().B58String(), false}, {"/c/bafkqaaa", false}} {
+		rec2 := &c19rec{hdr: http.Header{}, status: http.StatusOK}
+		req2 := &http.Request{Method: http.MethodGet, URL: &url.URL{Path: c.path}, Header: http.Header{"Accept": {"*/*"}}}
+		rw2, err2 := New(rec2, req2)
+		if c.ok {
+			verif_Assert(err2 == nil && rw2 != nil, "a later endpoint without options serves the default resource types")
+			if rw2 != nil {
+				verif_Assert(rw2.IsND(), "and, without the JSON preference, answers */* with streaming")
+			}
+		} else {
+			verif_Assert(err2 != nil, "and refuses the resource types another endpoint was configured with")
+		}
+	}
+	rec3 := &c19rec{hdr: http.Header{}, status: http.StatusOK}
+	_, err3 := New(rec3, &http.Request{Method: http.MethodGet, URL: &url.URL{Path: "/multihash/" + c19mh().B58String()}, Header: http.Header{}}, WithPreferJson(true))
+	verif_Assert(err3 == nil, "an endpoint with the JSON preference accepts a missing Accept header")
+	rec4 := &c19rec{hdr: http.Header{}, status: http.StatusOK}
+	_, err4 := New(rec4, &http.Request{Method: http.MethodGet, URL: &url.URL{Path: "/multihash/" + c19mh().B58String()}, Header: http.Header{}})
+	verif_Assert(err4 != nil, "and a later endpoint without it still requires the header")
 }
 
 // C19: bad Accept headers, resource types and keys give a 400 API error, never a panic.
@@ -259,6 +283,9 @@ func VerifC19_BadRequests() {
 		// the resource type is the second-to-last path element, wherever the handler is mounted
 		{"/a/b/c/multihash/11", true}, {"/v1/multihash/" + c19mh().B58String(), true}, {"/ipni/v1/cid/bafkqaaa", true},
 		{"/multihash/v1/" + c19mh().B58String(), false},
+		// keys that decode as base58 or hex but are not a well-formed multihash
+		{"/multihash/abc", false}, {"/multihash/1220", false}, {"/multihash/" + c19mh().HexString() + "00", false},
+		{"/multihash/" + c19mh().HexString()[:len(c19mh().HexString())-2], false},
 	}
 	ac := accepts[verif_Choose("accept", 0, len(accepts)-1)]
 	pt := paths[verif_Choose("path", 0, len(paths)-1)]
